@@ -267,7 +267,7 @@ def run(chk, repo, tier):
     # ------------------------------------------------------------ C14-d / e
     fr, fe = repo.func('radiometry.planck_radiance'), repo.func('radiometry.planck_exitance')
     xm = None
-    for vu, label in ((Const('wlam'), "valueunit='wlam'"), (Const('photlam'), 'other valueunit')):
+    for vu, label in ((Const('wlam'), "valueunit='wlam'"), (Const('photlam'), 'other valueunit'), (Const('flam'), "valueunit='flam'")):
         # the flux-unit converter is evaluated too: the comparison is on the returned value itself
         _, pr, _ = analyse(repo, fr, config={'valueunit': vu}, symbolic_globals=True, inline=['radiometry.Wlam.to'])
         _, pe, _ = analyse(repo, fe, config={'valueunit': vu}, symbolic_globals=True, inline=['radiometry.Wlam.to'])
